@@ -7,6 +7,20 @@ BASE_NOTE = ("Trusted: Coq 8.16.1 kernel (no native_compute; vm_compute only in 
              "(Print Assumptions parsed every run; theorems at R would add the 3 stdlib real axioms); ExtrOcamlBasic extraction with Z/Q/Qc kept as datatypes + a Zarith I/O driver; "
              "the Python correspondence harness and its tolerances; JAX/NumPy primitives are modelled by contracts (rfftn/irfftn = DFT half-spectrum, scan = fold, exp). ")
 CLAIMED = {
+ "C17": dict(text="Theorems: bin b collects exactly the modes with (2b-1)^2 <= 4|k|^2 < (2b+1)^2 (b = round|k|, half-open bins), bins are disjoint, every mode inside the Nyquist sphere lies in exactly one "
+                  "bin 0..N/2 and modes outside in none (all N, D, k; integer square-root argument); 4|k|^2 is never an odd square, so the floating comparison cannot sit on a boundary; the amplitude "
+                  "quantity of a stored mode of a cos is a and the power weights are the Parseval weights wgt|u_hat|^2/(2N^2D). Whole spectra (power/amplitude x sum/average, multi-channel) are "
+                  "compared with the extracted model on every run (exact rationals on float magnitudes).",
+             note="The Parseval identity itself (sum over stored modes = mean square / 2) is checked on the real code (and proved conjugation-free in 1-D in the C16 development); |.| of the FFT is an input "
+                  "of the model (sqrt is not modelled).",
+             technique="Rocq proof (integer arithmetic incl. Z.sqrt, field identities) + exact correspondence of whole spectra", design="§4 C17"),
+ "C19": dict(text="PARTIAL (what is logic is proved, IEEE/XLA behaviour is decided on the real code). Theorems over any field (complex over any formally real field for the axes): every ETDRK "
+                  "coefficient integrand (translated from the source) divides only by powers of lr = z + r w_j and returns a value iff lr <> 0 (partial-division semantics); the contour points are "
+                  "roots of -1, so lr <> 0 for every real z (M even) and purely imaginary z (4 | M); orders 0-4 map the zero state to zero when N(0)=0 for arbitrary coefficient arrays, and to the "
+                  "stated forcing combination otherwise; the M-point contour mean is exact on polynomials of degree < M; at lambda = 0 the stage programs with phi_k(0)=1/k! are Euler/Heun/Kutta/RK4.",
+             note="Not provable in an exact-arithmetic model: overflow of intermediates up to |z| = 1e15, XLA complex division/exp, dtype promotion, float32-vs-float64 distance. These are decided by a "
+                  "float32 and a float64 subprocess over all 36 stepper classes x orders 0-4 x a stiffness ladder (calibrated tolerance, factor 25 slack). The contour remainder at z=0 is measured, not proved.",
+             technique="Rocq proof (field identities, formal reality, polynomial exactness of the contour rule) on AST-translated coefficients + two-precision runtime check", design="§4 C19"),
  "C09": dict(text="Theorems (any field, any D, any state): the mean is the zero mode of the transform; every conservation-form linear symbol vanishes at the mean mode; the mean-mode coefficient of "
                   "conservative convection (multi- and single-channel), mean-fixed gradient norm and Cahn-Hilliard vanishes for every input; hence every ETDRK order 0-4 (stage programs translated "
                   "from the source) leaves the mean unchanged; every constant equilibrium (lambda u + N(u) = 0) is a fixed point of ETD1/ETD2RK/ETD3RK/ETD4RK for every h.",
